@@ -37,7 +37,7 @@ def plan(tier):
             qs.append(Q('ctr:%s:cnt%d:len%d' % (name, cm, ln), 'c11.c',
                         'init ; set_key ; %s ; encrypt(%d bytes) ; cleanup on the %s back end, twice with independent stack/heap contents: equal return values and output bytes' % (['no counter set', 'set_counter(c, %d)' % ln, 'set_counter(NULL, %d)' % ln][cm], n, name),
                         defs={'OB_CTR': 1, 'CIPHER': c, 'VEC': v, 'KLEN': (16 if c == 3 else blk), 'CNTMODE': cm, 'LEN': ln, 'N': n, 'NR': 1}, ll=ll, timeout=1800, fsarray=(1300 if v else None)))
-    return dict(queries=qs, level='model_checking', pre=[pre_layout, pre_ll_diff],
+    return dict(queries=qs, level='model_checking', pre=[pre_engine_canaries, pre_layout, pre_ll_diff],
                 functions=['skinny{64,128}_set_key / set_tweaked_key / set_tweak / ecb_encrypt', 'mantis_set_key / mantis_ecb_crypt', 'CTR init / set_key / set_counter / encrypt / cleanup on every back end'],
                 bounds={'templates': 'key ; encrypt - tweaked key ; tweak ; encrypt - Mantis key ; crypt - CTR init ; key ; [counter | NULL counter] ; encrypt ; cleanup', 'key lengths': 'quick: primary sizes and the remainder classes of the partial loads; thorough: every length',
                         'uninitialised memory': 'locals of the native code are unconstrained per call instance; for the shipped 64-bit partial-key path the clang IR is used (-O1 with undef as a fresh nondeterministic value, and -O0 where the locals are still memory)',
